@@ -558,6 +558,12 @@ pub fn generate(profile_name: &str, seed: u64) -> Program {
         steps.push(Op::Advance(50 * MS));
         steps.push(Op::Dispatch(Timeout::Zero));
     }
+    crate::gen2::retarget_idles(&mut g, &mut steps);
+    // rare long history: tens of thousands of reuses of one slot (C01 / C06)
+    if (p.name == "C01" || p.name == "C06") && g.rng.chance(1, 400) {
+        steps.push(Op::SlotChurn(*g.rng.pick(&[300u32, 5000, 70000])));
+        steps.push(Op::Dispatch(Timeout::Zero));
+    }
     let mut env = Vec::new();
     if p.env_events && g.rng.chance(1, 2) {
         let m = g.rng.range(1, 4);
